@@ -40,10 +40,13 @@ VARIABLES S, D, Fl, A, X, F,      \* node ids: started, completed, failed, activ
           injPending,             \* injected roots that have not started yet
           Dt,                     \* completed method instructions that the run log has to show as completed
           ms, tick, inTick, ranTick, idle, edits, pendAct, p,
+          stale,                  \* Watch/Alarm nodes whose registered interrupt outlived a reset of their flags (one clause at the
+                                  \* reset; what the orphaned interrupt does afterwards is not judged again)
+          calls,                  \* <<call node, macro node>>: macro calls in progress
           tainted,                \* a live edit lost interpretation state: the rest of this run is not a behaviour of the design
           tid, l, viols, done
 mvars == <<S, D, Fl, A, X, F, L, E, R, RegEver, began, inited, openCmd, defs, running, justEnded, mustRearm, startAt,
-           injPending, Dt, ms, tick, inTick, ranTick, idle, edits, pendAct, p, tainted>>
+           injPending, Dt, ms, tick, inTick, ranTick, idle, edits, pendAct, p, tainted, stale, calls>>
 tvars == <<mvars, tid, l, viols, done>>
 T == Traces[tid].ev
 SetOfSeq(q) == {q[i] : i \in DOMAIN q}
@@ -51,19 +54,23 @@ Ids(set) == {x[1] : x \in set}
 Active == {x \in L : x[1] \notin E}
 Innermost(set) == CHOOSE x \in set : \A y \in set : y[2] <= x[2]
 CondCls == {"WatchNode", "AlarmNode"}
-InjLock == IF \E x \in L : x[4] THEN "@with-injected-block" ELSE ""
+(* Two recorded defects make the block bookkeeping of the rest of a run meaningless; each is reported once, at its root
+   cause (C05.injected-block-cannot-be-ended, C04.pending-interrupt-survives-reset-of-its-node), and the block clauses
+   are not judged while it lasts: an injected Block holds the lock unseen, or an orphaned interrupt is running. *)
+Blind == (\E x \in L : x[4]) \/ stale # {}
+InjLock == ""
 AsyncCls == {"UodCommandNode", "EngineCommandNode"}
 CeilTick(d) == ((d + TickMs - 1) \div TickMs) * TickMs
 
 St == [S |-> S, D |-> D, Fl |-> Fl, A |-> A, X |-> X, F |-> F, L |-> L, E |-> E, R |-> R, RegEver |-> RegEver, began |-> began,
        inited |-> inited, openCmd |-> openCmd, defs |-> defs, running |-> running, justEnded |-> justEnded,
        mustRearm |-> mustRearm, startAt |-> startAt, injPending |-> injPending, Dt |-> Dt, ms |-> ms, tick |-> tick,
-       inTick |-> inTick, ranTick |-> ranTick, idle |-> idle, edits |-> edits, pendAct |-> pendAct, p |-> p, tainted |-> tainted]
+       inTick |-> inTick, ranTick |-> ranTick, idle |-> idle, edits |-> edits, pendAct |-> pendAct, p |-> p, tainted |-> tainted, stale |-> stale, calls |-> calls]
 
 Fresh == [S |-> {}, D |-> {}, Fl |-> {}, A |-> {}, X |-> {}, F |-> {}, L |-> {}, E |-> {}, R |-> {}, RegEver |-> {}, began |-> {},
           inited |-> {}, openCmd |-> {}, defs |-> {}, running |-> {}, justEnded |-> {}, mustRearm |-> {}, startAt |-> {},
           injPending |-> {}, Dt |-> {}, ms |-> 0, tick |-> -1, inTick |-> FALSE, ranTick |-> FALSE, idle |-> 0, edits |-> 0,
-          pendAct |-> "", p |-> [t |-> -1, started |-> FALSE, runId |-> 0, state |-> "Stopped"], tainted |-> FALSE]
+          pendAct |-> "", p |-> [t |-> -1, started |-> FALSE, runId |-> 0, state |-> "Stopped"], tainted |-> FALSE, stale |-> {}, calls |-> {}]
 
 Which(e, a, b, c) == IF e.cls = "CallMacroNode" THEN "C41." \o c ELSE IF e.inj THEN "C14." \o b
                      ELSE IF edits > 0 THEN "C01." \o a ELSE "C02." \o b
@@ -81,37 +88,43 @@ FlagClauses(e) ==
                \/ e.same \/ e.prev = "" \/ e.prev \in (D \cup Fl \cup X \cup RegEver)
                \/ (e.prevCls \in AsyncCls /\ e.prev \in S)>>,      \* commands run in the background once passed to the engine
              <<"C02.parent-started@" \o e.pcls \o e.suffix,
-               e.parent = "" \/ e.parent \in S \/ (e.pcls = "MacroNode" /\ e.parent \in running)>>,
+               \/ e.same \/ e.parent = "" \/ e.parent \in S \/ (e.pcls = "MacroNode" /\ e.parent \in running)
+               \/ (e.cls \in CondCls /\ e.n \in RegEver)>>,       \* a registered Watch/Alarm lives on after its scope completed
              <<"C04.body-needs-activation@" \o e.pcls \o e.suffix, e.pcls \in CondCls => e.parent \in A>>,
              <<"C04.not-after-cancel@" \o e.site, conds \cap X = {}>>,
-             <<(IF conds # {} THEN "C04" ELSE "C05") \o ".not-in-ended-block@" \o e.site, e.same \/ blocks \cap E = {}>>,
+             <<(IF conds # {} THEN "C04" ELSE "C05") \o ".not-in-ended-block@" \o e.site, Blind \/ e.same \/ blocks \cap E = {}>>,
              <<"C03.threshold-never-before@" \o e.site, e.same \/ ~e.thr \/ e.reached \/ e.n \in F>>,
              <<"C03.wait-max",
                (~e.same /\ e.prevWaitMs >= 0 /\ HasStart(e.prev) /\ e.prev \in D /\ ~e.thr /\ e.n \notin RegEver
                   /\ StartOf(e.prev)[3] = idle /\ StartOf(e.prev)[4] = edits)
                   => ms - StartOf(e.prev)[2] <= CeilTick(e.prevWaitMs) + TickMs>> >>
       [] e.f \in {"started", "completed", "activated", "block_ended"} /\ ~e.on ->
-          << <<"C02.state-reset@" \o e.f \o "-" \o e.site, e.same \/ e.rep \/ (e.ws /\ e.trail)>> >>
+          << <<"C02.state-reset@" \o e.f \o "-" \o e.site, e.same \/ e.rep \/ (e.ws /\ e.trail)>>,
+             <<"C04.pending-interrupt-survives-reset-of-its-node@" \o e.site,     \* the enclosing alarm re-armed / macro was called again
+               (e.f = "started" /\ ~e.same) => e.n \notin Ids(R)>> >>
       [] e.f = "completed" /\ e.on /\ ~e.same ->
           << <<"C02.completed-needs-started@" \o e.site, e.n \in S \/ e.cls = "MacroNode">>,
+             <<"C02.completed-without-running@" \o e.site,      \* an instruction completes only after it ran in this invocation
+               e.tracked /\ e.cls # "MacroNode" => e.n \in began>>,
              <<"C02.trailing-whitespace-passed@" \o e.site, ~(e.ws /\ e.trail)>>,
-             <<"C05.block-completes-only-after-end" \o e.suffix, e.cls = "BlockNode" => e.n \in E>>,
-             <<"C05.end-block-ends-innermost" \o e.suffix \o InjLock,
-               e.cls = "EndBlockNode" => (IF Active \cup {x \in L : x[1] \in justEnded} = {} THEN justEnded = {}
-                                          ELSE Cardinality(justEnded) = 1)>>,
-             <<"C05.end-blocks-ends-all" \o e.suffix \o InjLock, e.cls = "EndBlocksNode" => Active = {}>> >>
+             <<"C05.block-completes-only-after-end" \o e.suffix, Blind \/ (e.cls = "BlockNode" => e.n \in E)>>,
+             <<"C05.end-block-ends-innermost" \o e.suffix,
+               Blind \/ (e.cls = "EndBlockNode" => (IF Active \cup {x \in L : x[1] \in justEnded} = {} THEN justEnded = {}
+                                                     ELSE Cardinality(justEnded) = 1))>>,
+             <<"C05.end-blocks-ends-all" \o e.suffix, Blind \/ (e.cls = "EndBlocksNode" => Active = {})>> >>
       [] e.f = "activated" /\ e.on ->
           << <<"C04.activated-without-condition@" \o e.site, e.condNow \in {"True", "unknown"} \/ e.n \in F>>,
              <<"C04.activated-after-cancel@" \o e.site, e.n \notin X>>,
              <<"C04.activated-needs-registration@" \o e.site, e.n \in Ids(R)>> >>
       [] e.f = "lock_acquired" /\ e.on ->
-          << <<"C05.locked-blocks-form-a-chain" \o e.suffix \o InjLock, Ids(L) \subseteq blocks>>,
-             <<"C05.lock-in-ended-block" \o e.suffix, blocks \cap E = {}>> >>
+          << <<"C05.injected-block-cannot-be-ended", ~e.inj>>,      \* it is invisible to End block and to the lock of other blocks
+             <<"C05.locked-blocks-form-a-chain" \o e.suffix, Blind \/ e.inj \/ Ids(L) \subseteq blocks>>,
+             <<"C05.lock-in-ended-block" \o e.suffix, Blind \/ e.inj \/ blocks \cap E = {}>> >>
       [] e.f = "lock_acquired" /\ ~e.on ->
-          << <<"C05.lock-released-only-after-end", e.n \in E \/ e.rep>> >>
+          << <<"C05.lock-released-only-after-end", Blind \/ e.n \in E \/ e.rep>> >>
       [] e.f = "block_ended" /\ e.on ->
-          << <<"C05.ended-block-was-active", e.n \in Ids(Active)>>,
-             <<"C05.end-block-ends-innermost" \o InjLock, Active # {} => Innermost(Active)[1] = e.n>> >>
+          << <<"C05.ended-block-was-active", Blind \/ e.n \in Ids(Active)>>,
+             <<"C05.end-block-ends-innermost", Blind \/ (Active # {} => Innermost(Active)[1] = e.n)>> >>
       [] e.f = "run_started_count" ->
           << <<"C41.recursed", e.n \notin running>>,
              <<"C41.runs-latest-definition", <<e.args, e.n>> \in defs>> >>
@@ -122,12 +135,18 @@ Without(set, n) == {x \in set : x[1] # n}
 FlagUpdate(s, e) ==
     LET n == e.n IN
     CASE e.f = "started" /\ e.on ->
-            [s EXCEPT !.S = @ \cup {n}, !.injPending = @ \ {n}]
-      [] e.f = "started" /\ ~e.on -> [s EXCEPT !.S = @ \ {n}, !.began = @ \ {n}, !.inited = @ \ {n}]
-      [] e.f = "completed" /\ e.on -> [s EXCEPT !.D = @ \cup {n}, !.Dt = IF e.tracked THEN @ \cup {n} ELSE @,
+            LET isCall == e.cls = "CallMacroNode" /\ ~e.same /\ (\E d \in s.defs : d[1] = e.args)
+                m == IF isCall THEN (CHOOSE d \in s.defs : d[1] = e.args)[2] ELSE ""
+                others == {c[1] : c \in {x \in s.calls : x[2] = m}}
+            IN [s EXCEPT !.S = @ \cup {n}, !.injPending = @ \ {n},
+                         !.calls = IF isCall THEN @ \cup {<<n, m>>} ELSE @,
+                         !.stale = IF isCall /\ others # {} THEN @ \cup others \cup {n} ELSE @]
+      [] e.f = "started" /\ ~e.on -> [s EXCEPT !.S = @ \ {n}, !.began = @ \ {n}, !.inited = @ \ {n}, !.calls = Without(@, n),
+                                                !.stale = IF e.phase = "run" /\ n \in Ids(s.R) THEN @ \cup {n} ELSE @]
+      [] e.f = "completed" /\ e.on -> [s EXCEPT !.D = @ \cup {n}, !.Dt = IF e.tracked THEN @ \cup {n} ELSE @, !.calls = Without(@, n),
                                                 !.justEnded = IF e.cls \in {"EndBlockNode", "EndBlocksNode"} THEN {} ELSE @]
       [] e.f = "completed" /\ ~e.on -> [s EXCEPT !.D = @ \ {n}, !.Dt = @ \ {n}]
-      [] e.f = "failed" -> [s EXCEPT !.Fl = IF e.on THEN @ \cup {n} ELSE @ \ {n}]
+      [] e.f = "failed" -> [s EXCEPT !.Fl = IF e.on THEN @ \cup {n} ELSE @ \ {n}, !.calls = IF e.on THEN Without(@, n) ELSE @]
       [] e.f = "cancelled" -> [s EXCEPT !.X = IF e.on THEN @ \cup {n} ELSE @ \ {n}]
       [] e.f = "forced" -> [s EXCEPT !.F = IF e.on THEN @ \cup {n} ELSE @ \ {n}]
       [] e.f = "activated" -> [s EXCEPT !.A = IF e.on THEN @ \cup {n} ELSE @ \ {n},
@@ -151,7 +170,7 @@ RecClauses(e) ==
          <<"C03.wait-min",      \* the instruction after a Wait begins to execute no earlier than the duration after the Wait began
            (e.n \notin began /\ e.prevWaitMs >= 0 /\ HasStart(e.prev) /\ e.prev \notin F /\ e.prev \in D)
               => ms - StartOf(e.prev)[2] >= e.prevWaitMs>>,
-         <<"C04.invoked-after-block-end@" \o e.site, e.cls \in CondCls => SetOfSeq(e.blocks) \cap E = {}>> >>
+         <<"C04.invoked-after-block-end@" \o e.site, Blind \/ (e.cls \in CondCls => SetOfSeq(e.blocks) \cap E = {})>> >>
     ELSE <<>>
 
 ThrClauses(e) ==
@@ -163,7 +182,7 @@ TaClauses(e) == <<>>
 CmdClauses(e) ==
     IF e.e = "init" /\ e.n # ""
     THEN << <<(IF e.inj THEN "C14.injected-command-twice@" ELSE IF edits > 0 THEN "C01.command-reinit-after-edit@"
-               ELSE "C02.command-twice@") \o e.name, e.n \notin inited>> >>
+               ELSE "C02.command-twice@") \o e.name \o e.suffix, e.n \notin inited>> >>
     ELSE <<>>
 
 (* ---- tick end ------------------------------------------------------------------------------------------------------------ *)
@@ -176,9 +195,9 @@ RunLogClauses(rl) ==
          \A i \in DOMAIN rl : rl[i].state \in {"completed", "failed", "cancelled"} => ~rl[i].cancellable /\ ~rl[i].forcible>> >>
 
 TickEndClauses(e) ==
-    << <<"C05.block-tag-names-innermost" \o InjLock,
-         e.started => IF Active = {} THEN e.block \in {"none", ""} ELSE e.block = Innermost(Active)[3]>>,
-       <<"C05.pending-interrupts-end-with-block", \A r \in R : r[2] \cap E = {}>>,
+    << <<"C05.block-tag-names-innermost",
+         Blind \/ (e.started => IF Active = {} THEN e.block \in {"none", ""} ELSE e.block = Innermost(Active)[3])>>,
+       <<"C05.pending-interrupts-end-with-block", Blind \/ \A r \in R : r[2] \cap E = {}>>,
        <<"C04.alarm-rearms", \A a \in mustRearm : a[2] \cap E # {} \/ a[1] \in Ids(R)>>,
        <<"C04.true-condition-activates", pendAct = "">>,
        <<"C14.injected-starts-at-next-tick", ranTick => injPending = {}>>,
@@ -239,6 +258,12 @@ InjectClauses(e) ==
                         /\ SetOfSeq(e.preM.failed) = SetOfSeq(e.postM.failed))>> >>
 
 Judge(clauses) == IF tainted THEN viols ELSE AddViols(viols, Failing(clauses), l)
+Orphan(e) == ({e.n} \cup SetOfSeq(e.conds)) \cap stale # {}
+(* two calls of one macro in progress at the same time (one from a Watch/Alarm): they share a single invocation of the body *)
+Overlapped(m) == Cardinality({c \in calls : c[2] = m}) >= 2
+Shared(e) == \/ e.macro # "" /\ Overlapped(e.macro)
+             \/ e.cls = "CallMacroNode" /\ \E c \in calls : c[1] = e.n /\ Overlapped(c[2])
+SharedClause == << <<"C41.overlapping-calls-share-one-invocation", FALSE>> >>
 
 (* ---- the step -------------------------------------------------------------------------------------------------------------- *)
 Apply(s) ==
@@ -246,12 +271,12 @@ Apply(s) ==
     /\ RegEver' = s.RegEver /\ began' = s.began /\ inited' = s.inited /\ openCmd' = s.openCmd /\ defs' = s.defs
     /\ running' = s.running /\ justEnded' = s.justEnded /\ mustRearm' = s.mustRearm /\ startAt' = s.startAt
     /\ injPending' = s.injPending /\ Dt' = s.Dt /\ ms' = s.ms /\ tick' = s.tick /\ inTick' = s.inTick /\ ranTick' = s.ranTick
-    /\ idle' = s.idle /\ edits' = s.edits /\ pendAct' = s.pendAct /\ p' = s.p /\ tainted' = s.tainted
+    /\ idle' = s.idle /\ edits' = s.edits /\ pendAct' = s.pendAct /\ p' = s.p /\ tainted' = s.tainted /\ stale' = s.stale /\ calls' = s.calls
 
 TInit == /\ S = {} /\ D = {} /\ Fl = {} /\ A = {} /\ X = {} /\ F = {} /\ L = {} /\ E = {} /\ R = {} /\ RegEver = {}
          /\ began = {} /\ inited = {} /\ openCmd = {} /\ defs = {} /\ running = {} /\ justEnded = {} /\ mustRearm = {}
          /\ startAt = {} /\ injPending = {} /\ Dt = {} /\ ms = 0 /\ tick = -1 /\ inTick = FALSE /\ ranTick = FALSE /\ idle = 0
-         /\ edits = 0 /\ pendAct = "" /\ p = Fresh.p /\ tainted = FALSE
+         /\ edits = 0 /\ pendAct = "" /\ p = Fresh.p /\ tainted = FALSE /\ stale = {} /\ calls = {}
          /\ tid \in 1..Len(Traces) /\ l = 1 /\ viols = {} /\ done = FALSE
 
 Step ==
@@ -262,10 +287,10 @@ Step ==
          [] e.e = "ie" -> /\ Apply([s EXCEPT !.inTick = FALSE]) /\ UNCHANGED viols
          [] e.e = "fl" ->
               IF e.phase = "edit" THEN Apply(s) /\ UNCHANGED viols
-              ELSE /\ viols' = IF e.phase = "run" /\ e.known THEN Judge(FlagClauses(e)) ELSE viols
+              ELSE /\ viols' = IF e.phase = "run" /\ e.known /\ ~Orphan(e) THEN Judge(IF Shared(e) THEN SharedClause ELSE FlagClauses(e)) ELSE viols
                    /\ Apply(FlagUpdate(s, e))
          [] e.e = "rec" ->
-              /\ viols' = IF e.known THEN Judge(RecClauses(e)) ELSE viols
+              /\ viols' = IF e.known /\ ~Orphan(e) THEN Judge(IF Shared(e) THEN SharedClause ELSE RecClauses(e)) ELSE viols
               /\ Apply(IF e.state = "started"
                        THEN [s EXCEPT !.began = @ \cup {e.n},
                                       !.startAt = IF e.n \in s.began THEN @ ELSE Without(@, e.n) \cup {<<e.n, s.ms, s.idle, s.edits>>},
@@ -276,7 +301,7 @@ Step ==
               /\ viols' = Judge(TaClauses(e))
               /\ Apply([s EXCEPT !.pendAct = IF e.condNow = "True" /\ ~e.cancelled THEN e.n ELSE @])
          [] e.e \in {"init", "exec", "finalize"} ->
-              /\ viols' = Judge(CmdClauses(e))
+              /\ viols' = IF Orphan(e) THEN viols ELSE Judge(IF Shared(e) THEN SharedClause ELSE CmdClauses(e))
               /\ Apply(CASE e.e = "init" ->
                               [s EXCEPT !.inited = IF e.n = "" THEN @ ELSE @ \cup {e.n},
                                         !.openCmd = IF e.inj /\ e.finite THEN @ \cup {<<e.inst, e.name, s.tick>>} ELSE @]
